@@ -1,14 +1,14 @@
 (* Dispatch.v -- op table: the single entry point used by the extracted driver and by cases.v *)
 From Coq Require Import String.
 From Coq Require Import List NArith ZArith Bool.
-From MPS Require Import Model.Bytes Model.Sx Model.Framing Model.DispatchC19 Model.DispatchSession Model.DispatchHandler Model.DispatchPaillier Model.DispatchPoly Model.DispatchPool Model.DispatchOT Model.DispatchRef Model.DispatchCbor Model.DispatchNonce Model.DispatchZK.
+From MPS Require Import Model.Bytes Model.Sx Model.Framing Model.DispatchC19 Model.DispatchSession Model.DispatchHandler Model.DispatchPaillier Model.DispatchPoly Model.DispatchPool Model.DispatchOT Model.DispatchRef Model.DispatchCbor Model.DispatchNonce Model.DispatchZK Model.DispatchTwoParty.
 Import ListNotations.
 
 Definition op_table : list (bytes * (sx -> option sx)) :=
   [ (str "c19.write"%string, op_c19_write);
     (str "c19.commit_input"%string, op_c19_commit_input);
     (str "c19.valid"%string, op_c19_valid)
-  ] ++ session_ops ++ handler_ops ++ paillier_ops ++ poly_ops ++ pool_ops ++ ot_ops ++ ref_ops ++ cbor_ops ++ nonce_ops ++ zk_ops.
+  ] ++ session_ops ++ handler_ops ++ paillier_ops ++ poly_ops ++ pool_ops ++ ot_ops ++ ref_ops ++ cbor_ops ++ nonce_ops ++ zk_ops ++ twoparty_ops.
 
 Fixpoint lookup (name : bytes) (t : list (bytes * (sx -> option sx))) : option (sx -> option sx) :=
   match t with
